@@ -213,7 +213,11 @@ impl<B: Body> PreparedRequest<B> {
     pub fn send(&mut self) -> Result<Response> {
         let mut url = self.url.clone();
 
-        let deadline = self.base_settings.timeout.map(|timeout| Instant::now() + timeout);
+        // A timeout too long to be represented as a point in time is no deadline at all.
+        let deadline = self
+            .base_settings
+            .timeout
+            .and_then(|timeout| Instant::now().checked_add(timeout));
         let mut redirections = 0;
 
         loop {
